@@ -117,19 +117,32 @@ type innerWrite struct {
 }
 
 func (g *recGraph) AddTriples(c context.Context, ts []*triple.Triple) error {
+	g.h.readsInside("before", g.h.before)
 	w := &innerWrite{add: true, mask: maskOf(ts), call: g.h.tick(true)}
 	g.h.inner = append(g.h.inner, w)
 	err := g.Graph.AddTriples(c, ts)
 	w.ret = g.h.tick(true)
+	g.h.readsInside("after", g.h.after)
 	return err
 }
 
 func (g *recGraph) RemoveTriples(c context.Context, ts []*triple.Triple) error {
+	g.h.readsInside("before", g.h.before)
 	w := &innerWrite{mask: maskOf(ts), call: g.h.tick(true)}
 	g.h.inner = append(g.h.inner, w)
 	err := g.Graph.RemoveTriples(c, ts)
 	w.ret = g.h.tick(true)
+	g.h.readsInside("after", g.h.after)
 	return err
+}
+
+// readsInside issues reads through the wrapper from inside the forwarded write.
+func (h *hctx) readsInside(where string, kinds []string) {
+	for i, kind := range kinds {
+		rec := &readRec{name: fmt.Sprintf("inside-write-%s-forwarding%d", where, i), rd: kind}
+		h.reads = append(h.reads, rec)
+		h.doRead(h.handle, rec, rec.name+"-consumer")
+	}
 }
 
 func maskOf(ts []*triple.Triple) uint8 {
@@ -186,6 +199,9 @@ type hctx struct {
 	reads   []*readRec
 	writes  []*writeRec
 	inner   []*innerWrite
+	handle  storage.Graph // the wrapper's handle (for reads issued from inside a forwarded write)
+	before  []string
+	after   []string
 	wg      vsync.WaitGroup
 	capa    int
 	// visibleClock: call/return instants are scheduling events (sleep-set runs)
@@ -311,6 +327,14 @@ type op struct {
 	// (since 8ce954b every handle of a graph is the same memoizer, registered
 	// under a store-level mutex) and works through it.
 	ViaGraph bool
+	// Inside (writes only): reads issued through the wrapper from inside the
+	// forwarded write, i.e. at fixed places of the write's interval: Before
+	// the wrapped graph is written (after the layer's own preparations), After
+	// it has been written (before the layer's AddTriples / RemoveTriples
+	// returns). A reader thread that runs entirely between two internal steps
+	// of the writer does exactly this; here the interleaving is constructed
+	// instead of searched for, so it costs no scheduling deviations.
+	Before, After []string
 }
 
 type scenario struct {
@@ -344,10 +368,14 @@ func (o op) String() string {
 	if o.Rd != "" {
 		return via + o.Rd
 	}
-	if o.Add {
-		return via + "Add" + maskStr(o.Mask)
+	in := ""
+	if len(o.Before)+len(o.After) > 0 {
+		in = "[inside: " + strings.Join(o.Before, "+") + " | forwarded write | " + strings.Join(o.After, "+") + "]"
 	}
-	return via + "Remove" + maskStr(o.Mask)
+	if o.Add {
+		return via + "Add" + maskStr(o.Mask) + in
+	}
+	return via + "Remove" + maskStr(o.Mask) + in
 }
 
 var scenarios = []scenario{
@@ -363,6 +391,11 @@ var scenarios = []scenario{
 	{Name: "E3", Initial: 0b000, Ops: []op{add("writer", 0b001), rd("reader", rdExist0), rd("reader2", rdExist0)}, Final: []string{rdExist0}, Mode: explore.SleepSets, SSThoroughOnly: true, Hedge: true, Caps: []int{0}, BoundQ: 3, BoundT: 4},
 	{Name: "E4", Initial: 0b010, Ops: []op{add("writer", 0b001), rem("writer2", 0b010), rd("reader", rdExist0), rd("reader2", rdExist1)}, Final: []string{rdExist0, rdExist1}, Mode: explore.Bounded, Caps: []int{0}, BoundQ: 2, BoundT: 3}, // sleep sets: > 13.7 million runs, not completed in 10 minutes
 	{Name: "L3", Initial: 0b001, Ops: []op{add("writer", 0b010), rd("reader", rdTFS), rd("reader2", rdExist1)}, Final: []string{rdTFS, rdExist1}, Mode: explore.SleepSets, SSThoroughOnly: true, Hedge: true, Caps: []int{0}, BoundQ: 2, BoundT: 3},
+	// reads placed inside the write: after the layer prepared the write / after the wrapped graph was written
+	{Name: "N1", Initial: 0b000, Ops: []op{{Name: "writer", Add: true, Mask: 0b001, Before: []string{rdExist0}, After: []string{rdExist0}}}, Final: []string{rdExist0}, Mode: explore.SleepSets, Hedge: true, Caps: []int{0}, BoundQ: 3, BoundT: 4},
+	{Name: "N2", Initial: 0b001, Ops: []op{{Name: "writer", Add: true, Mask: 0b010, Before: []string{rdTFS}, After: []string{rdTFS}}}, Final: []string{rdTFS}, Mode: explore.SleepSets, Hedge: true, Caps: []int{0, 1}, BoundQ: 2, BoundT: 3},
+	{Name: "N3", Initial: 0b011, Ops: []op{{Name: "writer", Mask: 0b001, Before: []string{rdObj, rdTrip}, After: []string{rdTrip, rdObj}}}, Final: []string{rdObj, rdTrip}, Mode: explore.SleepSets, Hedge: true, Caps: []int{0}, BoundQ: 2, BoundT: 3},
+	{Name: "N4", Initial: 0b001, Ops: []op{{Name: "writer", Add: true, Mask: 0b010, Before: []string{rdTFS}, After: []string{rdTFS}}, rd("reader", rdTFS)}, Final: []string{rdTFS}, Mode: explore.SleepSets, SSThoroughOnly: true, Hedge: true, Caps: []int{0}, BoundQ: 2, BoundT: 3},
 	// handles obtained with Store.Graph while another handle is in use (store-level registration of the shared memoizer)
 	{Name: "G1", Initial: 0b000, Ops: []op{add("writer", 0b001), rdVia("reader", rdExist0)}, Final: []string{rdExist0}, Mode: explore.SleepSets, Hedge: true, Caps: []int{0}, BoundQ: 3, BoundT: 4},
 	{Name: "G2", Initial: 0b001, Ops: []op{addVia("writer", 0b010), rdVia("reader", rdTFS)}, Final: []string{rdTFS}, Mode: explore.SleepSets, Hedge: true, Caps: []int{0}, BoundQ: 2, BoundT: 3},
@@ -413,7 +446,11 @@ func (sc *scenario) mk(capa int, visibleClock bool) func() explore.Exec {
 					h.reads = append(h.reads, rec)
 					h.doRead(g, rec, rec.name+"-consumer")
 				}
+				h.handle = g
 				for _, o := range sc.Ops {
+					if len(o.Before)+len(o.After) > 0 {
+						h.before, h.after = o.Before, o.After
+					}
 					handle := func() storage.Graph { return g }
 					if o.ViaGraph {
 						handle = func() storage.Graph {
